@@ -393,6 +393,8 @@ def report(b, prop, P, tier, seed, first, results, t0, args):
             # a listed finding is reported on every run of the check
             print("KNOWN-FINDING: property=%s %s [%s; hit by %d runs of this batch]" % (prop, k.get("what", k.get("id")), k["id"], known_hits.get(k["id"], 0)))
     # required reach probes
+    if vio_info:
+        exit_code = 1  # ... and trouble with another class of the same batch (order of the classes must not matter)
     if exit_code == 1 and harness_errors:
         log("note: %d runs of this batch also ended in harness errors (not verdicts)" % len(harness_errors))
     for name in P.get("required_probes", []):
